@@ -112,6 +112,20 @@ CHECKS = {
         note="Cells are located through the sheet's own structure (the purchases formula anchors the balance block), not by recomputing RP2's row arithmetic.",
         design="3/C20",
     ),
+    "C14": dict(
+        category="exploration",
+        technique="exhaustive enumeration of pairs of the 14 taxable kinds over two assets x windows x {US, IE} through spreadsheet -> parse_ods -> compute_tax -> the real tax_report plugin in a forked child; .ods read back",
+        text="For the US and the IE plugin and windows none / from / to: every single kind, every ordered pair (k1 on asset B1, k2 on asset B2) of the 14 taxable kinds (7 income types, DONATE / FEE / GIFT / LOST / SELL / STAKING disposals, fee-bearing transfer), pairs of kinds on one asset six months apart, all 14 kinds on one and on both assets (thorough: triples); every disposal spans a lot older and a lot younger than one year. Read-back: each fraction of the window is on exactly one row of exactly the sheet an independent type -> sheet table names (fee / lost / transfer fee on Investment Expenses), with amount, dates acquired and sold in the plugin's format, proceeds, cost basis, gain, LONG/SHORT, k/n labels and type string as computed; no stray or duplicate rows; sheets without rows absent; Legend = method and filters.",
+        note="Rows are matched to fractions by (asset, event unique id, lot unique id).",
+        design="3/C14",
+    ),
+    "C15": dict(
+        category="exploration",
+        technique="bounded-exhaustive multi-holder history tree x second asset x methods x to-dates through spreadsheet -> parse_ods -> compute_tax -> the real open_positions plugin in a forked child; .ods read back against exact-rational reference figures",
+        text="Asset B1 = every history up to depth 3 over 10 symbols on 3 accounts (2 exchanges x 2 holders; steps +1h / +1d / +1y) in which no account is ever overdrawn, asset B2 = none or one of 2 fixed multi-holder histories; x fifo / lifo / hifo / lofo x to-date (none, year ends, every transaction day and the day before). Read-back of both sheets: exactly the holders / (exchange, holder) accounts with a positive balance of an asset that has unsold lot parts; crypto balance = reference account replay of the input rows; per-unit cost = cost (with fees) of the unconsumed lot parts / total balance; unrealized cost per row; weights add up to 100 % on both sheets; realized cost of the detail fractions + unrealized cost in the report = cost of everything acquired.",
+        note="The consumed part of each lot is taken from the computed fractions (C01/C02 judge those); balances are recomputed independently.",
+        design="3/C15",
+    ),
 }
 
 NOT_YET = {
